@@ -40,7 +40,29 @@ def block_tables(design, ref):
         if ref.rw[b][1] & ref.rw[a][0]:
           continue          # mutual dependency = block-level cycle; not part of the acyclic premise
         pairs.append((a, b))
-  return reads, kinds, pairs
+  # explicit constraints of the spec (U(a) < U(b), WR(x) < U(b): every writer of x before b, RD(x) > U(a): every reader of x after a)
+  import re
+  explicit = []
+  by_host = {}
+  for (h, n), v in kinds.items():
+    by_host.setdefault(h, []).append(n)
+  for host, cname in ref.inst.items():
+    for c in design["classes"][cname].get("constraints", []):
+      m = re.fullmatch(r"U\((\w+)\) < U\((\w+)\)", c)
+      if m:
+        explicit.append(((host, m.group(1)), (host, m.group(2)), c)); continue
+      m = re.fullmatch(r"(WR|RD)\(s\.([\w\[\]]+)\) ([<>]) U\((\w+)\)", c)
+      if m:
+        kind_, sig, op, blk = m.groups()
+        cells = {ref.find(x) for x in ref.cell[f"{host}.{sig}"]}
+        for (h2, n2) in [(host, n) for n in by_host.get(host, [])]:
+          if (h2, n2) == (host, blk) or kinds[(h2, n2)] != "comb": continue
+          # the constraint names the signal object s.<sig> itself: blocks of this component that write / read exactly it
+          rd_, wr_ = G.stmt_reads_writes(next(b for hh, b in ref.blocks if hh == h2 and b["name"] == n2)["stmts"], [], [])
+          objs = wr_ if kind_ == "WR" else rd_
+          if any(r["path"] == sig and not r["steps"] for r in objs):
+            explicit.append((((h2, n2), (host, blk), c) if op == "<" else ((host, blk), (h2, n2), c)))
+  return reads, kinds, pairs, explicit
 
 
 def run_design(sh, design, rng, case, modes, ncyc, judge, tag, reps=None):
@@ -68,7 +90,7 @@ def _run(sh, design, src, mod, rng, case, modes, ncyc, judge, reps):
     sh.inconclusive("generated-design-has-block-level-cycle(outside the acyclic premise)")
     return None
   widths = {p: w for p, w in G.top_inputs(design)}
-  reads, kinds, pairs = block_tables(design, ref)
+  reads, kinds, pairs, explicit = block_tables(design, ref)
   paths = sorted(ref.sig)
   regcells = set()
   for k, v in kinds.items():
@@ -196,6 +218,12 @@ def _run(sh, design, src, mod, rng, case, modes, ncyc, judge, reps):
               pos = {}
               for i, k in enumerate(pev):
                 pos.setdefault((k[0], k[1]), i)
+              for (a, b, ctext) in explicit:
+                stats["explicit_constraints_checked"] += 1
+                if a in pos and b in pos and pos[a] > pos[b]:
+                  _viol(sh, "explicit-constraint-not-honoured", case, design, src, mode=mode, cycle=cyc, which=pname, constraint=ctext,
+                        first=a, second=b, schedule=[e[:2] for e in pev]); bad = True
+                  break
               for (a, b) in pairs:
                 stats["ordered_pairs_checked"] += 1
                 if a in pos and b in pos and pos[a] > pos[b]:
